@@ -427,6 +427,14 @@ func (lb *LoadBalancer) AddBackend(backendCfg config.BackendConfig) error {
 		return err
 	}
 
+	// Backends are identified by name everywhere (removal, metrics, passive health
+	// counters): a second backend under an existing name cannot be told apart.
+	for _, existing := range lb.strategy.GetBackends() {
+		if existing.Name == backendCfg.Name {
+			return fmt.Errorf("backend %q already exists", backendCfg.Name)
+		}
+	}
+
 	// Create a reverse proxy for this backend with optimized transport
 	proxy := httputil.NewSingleHostReverseProxy(backendURL)
 
